@@ -57,6 +57,9 @@ CHECKS = {
  'C19': ('exploration', 'ovl', 'online trace-specification checker over the sequence-numbered hook event log (notify/timer/round/exec/kill) plus boundary observations written by the hook scripts themselves',
          'Notification timing patterns around the rate-limit timer (incl. a second change arriving while a round is being started, both notify/timer orders at the boundary) are driven against an in-package HooksCaller with a short rate limit; rules on the logical event order: every send is followed by a start of every eligible hook, rounds only after notify(pending=0) or timer(pending>1), at most two rounds between timer events, timer never early, each round starts exactly the eligible set; eligibility over all file-type/permission layouts incl. a directory made world-writable after start; agent wiring counts exactly one notification per successful mutation; a hanging hook never delays requests (thorough: killed not before 60 s).',
          'Decided on logical events; the abstract-model exploration mentioned in the anchors is replaced by driven timing patterns (evidence lists the distinct event sequences observed).', '5 C19'),
+ 'C16': ('exploration', 'hx+ovl', 'reference consistency predicate (sandwich on "supported") over generated directories; directory-invariant monitor after every operation of generated agent histories; exit-status monitor on the built binary',
+         'Thousands of generated directories (extensions, contents, duplicates across extensions, .tmp variants, shuffled creation order, 1-40 entries) are judged by Check and by a reference predicate; Init must succeed exactly on empty directories and yield a valid store; after every completed operation of sequential agent histories (and a concurrent login/set-admin race with large auxiliary data) the directory invariants must hold; every command of the binary except init/check must exit 3 on invalid directories without changing them and run with --do-check=false.',
+         'Directories are built from valid names only (the property quantifier).', '5 C16'),
 }
 
 def main():
